@@ -26,7 +26,7 @@ RULE = ("48 policy combinations (+ Thompson with module-level binarizers) x copy
         "partial_fit, after arm change, after warm start, after queries} x clone method in {deepcopy, pickle 2..5, pickle + "
         "fresh interpreter}; non-trivial = clone taken after an arm change or warm start, or restored in another process; "
         "distinct = (combo, copy point, method, continuation skeleton)")
-BUDGET = {"quick": {"cases": 48 * 5, "shards": 8}, "thorough": {"cases": 48 * 120, "shards": 16, "wall_s": 2400}}
+BUDGET = {"quick": {"cases": 48 * 15, "shards": 16}, "thorough": {"cases": 48 * 240, "shards": 16, "wall_s": 3600}}
 MIN = {"quick": {"evaluations": 400, "nontrivial": 60, "counters": {"restored_in_fresh_interpreter": 8}},
        "thorough": {"evaluations": 10000, "nontrivial": 1500, "counters": {"restored_in_fresh_interpreter": 200}}}
 ASSUMPTIONS = ["binarizers are module-level functions of mon.binarizers (picklable, importable in the child)",
